@@ -94,11 +94,42 @@ Theorem nc_spai0_sweep_spec (A : crs) (rhs x tmp : vec) i :
   wf A = true ->
   length rhs = nrows A -> length x = nrows A -> length tmp = nrows A -> i < nrows A ->
   vget (fst (spai0_sweep (spai0_setup A) A rhs x tmp)) i =
-  vget x i + sinv (row_norm2 (nth i (rows A) [])) * mget A i i * (vget rhs i - Ax A x i).
+  vget x i + sinv (row_norm2 (nth i (rows A) [])) * mget_adj A i i * (vget rhs i - Ax A x i).
 Proof.
   intros Hwf Hr Hx Ht Hi.
   rewrite nc_spai0_sweep_gen by (try apply spai0_setup_length; assumption).
   rewrite spai0_setup_get by assumption. ncr.
+Qed.
+
+(* math::adjoint additive with adjoint(0) = 0 (blocks: transpose; complex: conjugate): the accumulated numerator
+   is the adjoint of the dense diagonal entry (repair of finding C06-spai0-no-conj) *)
+Lemma nc_rget_adj_sadj (r : row) j :
+  (forall a b : S, sadj (a + b) = sadj a + sadj b) -> sadj (@s0 S) = s0 ->
+  rget_adj r j = sadj (rget r j).
+Proof.
+  intros Hadd H0. rewrite rget_adj_map. induction r as [|e r IH].
+  - simpl. unfold rget. simpl. symmetry. exact H0.
+  - cbn [map]. rewrite !(nc_rget_cons Hnc), Hadd, IH. cbn [fst snd].
+    destruct (Nat.eqb (fst e) j); [reflexivity|]. rewrite H0. reflexivity.
+Qed.
+
+Lemma nc_spai0_setup_get_sadj (A : crs) i :
+  (forall a b : S, sadj (a + b) = sadj a + sadj b) -> sadj (@s0 S) = s0 -> i < nrows A ->
+  vget (spai0_setup A) i = sinv (row_norm2 (nth i (rows A) [])) * sadj (mget A i i).
+Proof.
+  intros Hadd H0 Hi. rewrite (spai0_setup_get A i Hi). unfold mget_adj, mget.
+  rewrite (nc_rget_adj_sadj _ i Hadd H0). reflexivity.
+Qed.
+
+Theorem nc_spai0_sweep_spec_sadj (A : crs) (rhs x tmp : vec) i :
+  (forall a b : S, sadj (a + b) = sadj a + sadj b) -> sadj (@s0 S) = s0 ->
+  wf A = true ->
+  length rhs = nrows A -> length x = nrows A -> length tmp = nrows A -> i < nrows A ->
+  vget (fst (spai0_sweep (spai0_setup A) A rhs x tmp)) i =
+  vget x i + sinv (row_norm2 (nth i (rows A) [])) * sadj (mget A i i) * (vget rhs i - Ax A x i).
+Proof.
+  intros Hadd H0 Hwf Hr Hx Ht Hi. rewrite (nc_spai0_sweep_spec A rhs x tmp i Hwf Hr Hx Ht Hi).
+  unfold mget_adj, mget. rewrite (nc_rget_adj_sadj _ i Hadd H0). reflexivity.
 Qed.
 
 (* ------------------------------------------------------------------ *)
